@@ -214,10 +214,13 @@ class StdFileSystem(FileSystem):
 class MemoryFile(File):
   """Memory file: a handle with its own position over a (shared) buffer."""
 
-  def __init__(self, buffer: io.IOBase, pos: int = 0):
+  def __init__(self, buffer: io.IOBase, pos: int = 0, append: bool = False):
     super().__init__()
     self._buffer = buffer
     self._pos = pos
+    # In append mode every write goes to the current end of the file (as with
+    # O_APPEND), so that two appenders do not overwrite each other.
+    self._append = append
 
   def read(self, size: Optional[int] = None) -> Union[str, bytes]:
     self._buffer.seek(self._pos)
@@ -232,7 +235,10 @@ class MemoryFile(File):
     return content
 
   def write(self, content: Union[str, bytes]) -> None:
-    self._buffer.seek(self._pos)
+    if self._append:
+      self._buffer.seek(0, 2)
+    else:
+      self._buffer.seek(self._pos)
     self._buffer.write(content)
     self._pos = self._buffer.tell()
 
@@ -299,7 +305,7 @@ class MemoryFileSystem(FileSystem):
       raise FileNotFoundError(path)
     # Every `open` returns its own handle (position) over the file's buffer, so
     # that a handle left open elsewhere cannot move where this one reads/writes.
-    file = MemoryFile(file._buffer)  # pylint: disable=protected-access
+    file = MemoryFile(file._buffer, append='a' in mode)  # pylint: disable=protected-access
     if 'a' in mode:
       file.seek(0, 2)
     return file
